@@ -15,6 +15,28 @@ import sys
 import tempfile
 
 
+def _patch_bytestring_provider():
+    """Hypothesis 6.168's BytestringProvider.draw_integer compares the raw bits with [min_value, max_value] without
+    adding min_value, so e.g. integers(2, 3) never terminates (every input is an overrun). Work around it here."""
+    from hypothesis.internal.conjecture.providers import BytestringProvider
+
+    def draw_integer(self, min_value=None, max_value=None, *, weights=None, shrink_towards=0):
+        if min_value is None and max_value is None:
+            min_value, max_value = -(2 ** 127), 2 ** 127 - 1
+        elif min_value is None:
+            min_value = max_value - 2 ** 64
+        elif max_value is None:
+            max_value = min_value + 2 ** 64
+        if min_value == max_value:
+            return min_value
+        bits = (max_value - min_value).bit_length()
+        value = min_value + self._draw_bits(bits)
+        while value > max_value:
+            value = min_value + self._draw_bits(bits)
+        return value
+    BytestringProvider.draw_integer = draw_integer
+
+
 def main():
     ap = argparse.ArgumentParser()
     ap.add_argument("pid")
@@ -31,11 +53,13 @@ def main():
         import pymoto  # noqa: F401
     from pbt import harness as H
     from hypothesis import given, settings, HealthCheck
+    _patch_bytestring_provider()
     H.check_repo_import()
     mod = H.find_module(a.pid)
     known = H.load_findings(a.pid)
     res = H.new_result()
     state = {"n": 0}
+    every = max(25, a.runs // 40)    # dump period (libFuzzer exits without running any Python cleanup)
 
     def dump():
         out = dict(res)
@@ -52,13 +76,20 @@ def main():
         nv = sum(v["count"] for v in res["viol"].values())
         H.record_case(mod, res, case, known)
         state["n"] += 1
-        if state["n"] % 500 == 0 or sum(v["count"] for v in res["viol"].values()) != nv:
+        if state["n"] % every == 0 or sum(v["count"] for v in res["viol"].values()) != nv:
             dump()
 
     corpus = tempfile.mkdtemp(prefix="verif_fuzz_")
+    # start corpus: a few pseudo-random byte strings long enough for the strategy (short inputs are rejected by
+    # Hypothesis as "overrun" and libFuzzer only grows lengths slowly), plus the empty input
+    import random
+    rr = random.Random(a.seed)
+    for i in range(8):
+        with open(os.path.join(corpus, f"seed{i}"), "wb") as fh:
+            fh.write(bytes(rr.getrandbits(8) for _ in range(2048)))
     dump()
-    atheris.Setup([sys.argv[0], f"-runs={a.runs}", f"-seed={a.seed}", "-max_len=4096", "-print_final_stats=0",
-                   "-verbosity=0", corpus], test.hypothesis.fuzz_one_input)
+    atheris.Setup([sys.argv[0], f"-runs={a.runs}", f"-seed={a.seed}", "-max_len=8192", "-len_control=0",
+                   "-print_final_stats=0", "-verbosity=0", corpus], test.hypothesis.fuzz_one_input)
     try:
         atheris.Fuzz()
     finally:
